@@ -485,8 +485,8 @@ func init() {
 			}
 			return 1100
 		},
-		ChunkSize: 40,
-		Rule:      "state x action matrix, states reached deterministically by gating: never connected; Dialer blocked; CONNECT write blocked after 0..n bytes; CONNACK read blocked after 0-3 bytes; resend write blocked mid-packet; online idle (with Subscribe and Ping awaiting responses); online with 1-3 Publish calls and a Subscribe, the first blocked inside Write; application holding a returned message; down after a failed connect; connection lost and not yet redialled; closed already. Actions: 1-4 of Close, Disconnect(nil), Disconnect(open quit), Disconnect(closed quit) concurrently, optionally delayed at the close.locked/disconnect.locked hook points and with yields at connect hook points; 0-4 persisted publishes pending whose exchange channels are deliberately left undrained. Oracle: every action returns while the connection operations stay blocked (a Disconnect may wait for a held write, which is then released); no panic; ReadSlices reports ErrClosed without another dial; in-flight requests return; afterwards all nine public methods return ErrClosed, Close returns nil, Offline is released, Online blocked, and the pair was never seen released together (sampler running all along); every pending exchange holds an ErrClosed and is still open; every connection got closed; a Disconnect that returned nil made DISCONNECT the last packet of its connection; no goroutine with a library frame remains. Non-trivial: action issued in a non-idle state; distinct by (state, action multiset, hook delay, pending publishes).",
+		ChunkSize:   40,
+		Rule:        "state x action matrix, states reached deterministically by gating: never connected; Dialer blocked; CONNECT write blocked after 0..n bytes; CONNACK read blocked after 0-3 bytes; resend write blocked mid-packet; online idle (with Subscribe and Ping awaiting responses); online with 1-3 Publish calls and a Subscribe, the first blocked inside Write; application holding a returned message; down after a failed connect; connection lost and not yet redialled; closed already. Actions: 1-4 of Close, Disconnect(nil), Disconnect(open quit), Disconnect(closed quit) concurrently, optionally delayed at the close.locked/disconnect.locked hook points and with yields at connect hook points; 0-4 persisted publishes pending whose exchange channels are deliberately left undrained. Oracle: every action returns while the connection operations stay blocked (a Disconnect may wait for a held write, which is then released); no panic; ReadSlices reports ErrClosed without another dial; in-flight requests return; afterwards all nine public methods return ErrClosed, Close returns nil, Offline is released, Online blocked, and the pair was never seen released together (sampler running all along); every pending exchange holds an ErrClosed and is still open; every connection got closed; a Disconnect that returned nil made DISCONNECT the last packet of its connection; no goroutine with a library frame remains. Non-trivial: action issued in a non-idle state; distinct by (state, action multiset, hook delay, pending publishes).",
 		Assumptions: []string{"promptness is decided structurally: the actions must return while the gates that block the connection operations stay closed", "goroutines get 2 s to wind down before they count as left behind"},
 		Run: func(c *run.Ctx) {
 			state := c12States[c.Case%len(c12States)]
